@@ -104,7 +104,7 @@ PROPS = {
     'C15': dict(fams=['invalid_args', 'bulk', 'capacity', 'deep', 'codec', 'builder', 'crud', 'versions'], views=['obs'],
                 oracles=['wellformed', 'error_preserves'], pyref=True, errors_only=True, filt=lambda k, o: k == 'R',
                 key=lambda ops: True),
-    'C16': dict(fams=['par', 'fault'], views=['obs'], oracles=['par'], pyref=True, par_only=True, twin='fault',
+    'C16': dict(fams=['par', 'fault'], views=['obs'], oracles=['par'], pyref=True, par_only=True, twin='fault', no_corr=True,
                 filt=lambda k, o: k == 'R' and o in ('par_hash', 'par_mix'),
                 key=lambda ops: any(o.startswith('par_') for o in ops), repeat=True),
     'C17': dict(fams=['builder', 'builder_nodes'], views=['obs'], oracles=['builder'], pyref=True,
@@ -445,8 +445,12 @@ def oracle_findings(prop, text, trace):
         except Exception as e:
             fs = [oracles.Finding(0, 'oracle %s crashed on this trace: %r' % (name, e))]
         if prop == 'C04' and name == 'memo':
-            # isolation: only a memo that went wrong in a handle the operation did NOT target is this property's business
-            fs = [f for f in fs if 0 < f.op <= len(ops) and f.msg.split(':', 1)[0] not in oracles.targets(ops[f.op - 1])]
+            # isolation: a memo that goes wrong, at this very operation, in a handle the operation did NOT target
+            stale = {}
+            for f in fs:
+                stale.setdefault(f.op, set()).add(f.msg.split(':', 1)[0])
+            fs = [f for f in fs if 0 < f.op <= len(ops) and f.msg.split(':', 1)[0] not in oracles.targets(ops[f.op - 1])
+                  and f.msg.split(':', 1)[0] not in stale.get(f.op - 1, set())]
         if oops is not None and name in ('canonical', 'memo', 'unchanged'):
             # these two audit every state; for this property only the states right after its operations count
             fs = [f for f in fs if 0 < f.op <= len(ops) and ops[f.op - 1].split()[0] in oops]
@@ -467,6 +471,10 @@ def correspondence(prop, text, it, mt):
     vops = spec.get('vops')
 
     def relevant(view, n, a, b, state):
+        if spec.get('no_corr'):
+            # C16 compares the implementation with ITSELF (parallel vs sequential, with vs without a fault, run vs run);
+            # a root that differs from the model's is C02's business
+            return False
         optoks = ops[n - 1].split() if 0 < n <= len(ops) else ['']
         opname = optoks[0]
         if view == 'obs':
